@@ -227,6 +227,8 @@ def evaluate(kind, case, acc):
             acc.oracle_evaluations += 1
             g3 = None if got is None else tuple(got[:3])
             gw = spec.wheel_compatibility(f"x-1-{py}-{abi}-any.whl")  # the file-name entry point is a twin
+            if gw == got:
+                gw = spec.wheel_compatibility(f"x-1-7-{py}-{abi}-any.whl")  # ... with the optional build tag, too
             if gw != got:
                 acc.fail(kind, "wheel_compatibility-differs-from-compatibility", {**case, "abis": [abi]}, expected=got, got=gw)
             if not adm.universal and not adm.empty and _near_bound(rp, py):
